@@ -152,7 +152,9 @@ def op_text(op):
     if k == "relink":
         return "relink %s %d" % (hx(op[1]), op[2])
     if k == "corrupt":
-        return "corrupt %d %s" % (op[1], op[2])
+        return "corrupt %s %s" % (op[1], op[2])        # <k>: k-th file object, m<k>: k-th manifest, p<hexpath>: the object of that file
+    if k == "mv":
+        return "mv %s %s" % (hx(op[1]), hx(op[2]))
     if k == "rmobj":
         return "rmobj %s" % op[1]        # <k>: k-th object; m<k>: k-th manifest
     if k == "clone":
@@ -788,6 +790,9 @@ def apply_op(proj, op, mstep, b3):
             os.utime(proj.abspath(op[1]), (1577836800, 1577836800))        # the new content carries an old mtime
         elif k == "rm":
             proj.remove(op[1])
+        elif k == "mv":
+            os.makedirs(os.path.dirname(proj.abspath(op[2])), exist_ok=True)
+            os.rename(proj.abspath(op[1]), proj.abspath(op[2]))
         elif k == "mkdir":
             proj.put("dir", op[1])
         elif k == "fifo":
